@@ -135,13 +135,20 @@ impl<T: FileReader> RVParser<T> {
     /// This is used to recover from parse errors. If there is a parse error,
     /// we will skip the rest of the line and try to parse the next line.
     fn recover_from_parse_error(&mut self) {
-        let lexer = self.lexer();
-        if let Some(x) = lexer {
+        // The line may go on in the including file: an included file that
+        // does not end in a newline stands in the middle of the line that
+        // holds its directive.
+        while let Some(x) = self.lexer_stack.last_mut() {
             for token in x.by_ref().flatten() {
                 if token == TokenType::Newline {
-                    break;
+                    return;
                 }
             }
+            if self.lexer_stack.len() <= 1 {
+                return;
+            }
+            self.lexer_stack.pop();
+            self.file_stack.pop();
         }
     }
 
@@ -174,10 +181,14 @@ impl<T: FileReader> RVParser<T> {
             RawToken::new(String::new(), Range::default(), first_uuid),
         ));
 
-        while let Some(l) = self.lexer() {
+        while !self.lexer_stack.is_empty() {
             #[cfg(riscv_analysis_verif)]
             crate::verif::tick("parse");
-            let node = ParserNode::try_from(l);
+            let node = ParserNode::parse_statement(&mut IncludeStack {
+                lexers: &mut self.lexer_stack,
+                files: &mut self.file_stack,
+                inside_statement: false,
+            });
 
             match node {
                 Ok(x) => {
@@ -252,10 +263,6 @@ impl<T: FileReader> RVParser<T> {
         }
         (nodes, parse_errors)
     }
-
-    fn lexer(&mut self) -> Option<&mut Peekable<Lexer>> {
-        self.lexer_stack.last_mut()
-    }
 }
 
 impl Token {
@@ -315,7 +322,7 @@ impl Token {
     }
 }
 
-impl AnnotatedLexer<'_> {
+impl<S: TokenSource> AnnotatedLexer<'_, S> {
     fn _expect_lparen(&mut self) -> Result<(), LexError> {
         self.get_any()?.as_lparen()
     }
@@ -364,7 +371,7 @@ impl AnnotatedLexer<'_> {
     }
 
     fn get_any(&mut self) -> Result<Token, LexError> {
-        let Some(item) = self.lexer.next() else {
+        let Some(item) = self.lexer.next_token() else {
             return self.end_of_file();
         };
         if let Ok(ref item) = item {
@@ -382,25 +389,87 @@ impl AnnotatedLexer<'_> {
     }
 
     fn peek_any(&mut self) -> Result<Token, LexError> {
-        match self.lexer.peek() {
-            Some(item) => item.clone(),
+        match self.lexer.peek_token() {
+            Some(item) => item,
             None => self.end_of_file(),
         }
     }
 }
 
-struct AnnotatedLexer<'a> {
-    lexer: &'a mut Peekable<Lexer>,
+/// Where the tokens of a statement come from.
+trait TokenSource {
+    fn next_token(&mut self) -> Option<Result<Token, LexError>>;
+    fn peek_token(&mut self) -> Option<Result<Token, LexError>>;
+}
+
+impl TokenSource for Peekable<Lexer> {
+    fn next_token(&mut self) -> Option<Result<Token, LexError>> {
+        self.next()
+    }
+    fn peek_token(&mut self) -> Option<Result<Token, LexError>> {
+        self.peek().cloned()
+    }
+}
+
+/// The files that are being read, innermost include last.
+///
+/// `.include` stands for the text of the file: a statement that has begun
+/// when an included file ends goes on with what follows the directive in the
+/// including file (a data list that is continued there, a macro that is
+/// closed there, the rest of the line after a file without final newline).
+/// Between statements the end of a file is reported as such, and the parser
+/// returns to the including file.
+struct IncludeStack<'a> {
+    lexers: &'a mut Vec<Peekable<Lexer>>,
+    files: &'a mut Vec<Uuid>,
+    inside_statement: bool,
+}
+
+impl TokenSource for IncludeStack<'_> {
+    fn next_token(&mut self) -> Option<Result<Token, LexError>> {
+        loop {
+            if let Some(token) = self.lexers.last_mut()?.next() {
+                self.inside_statement = true;
+                return Some(token);
+            }
+            if !self.inside_statement || self.lexers.len() <= 1 {
+                return None;
+            }
+            self.lexers.pop();
+            self.files.pop();
+        }
+    }
+    fn peek_token(&mut self) -> Option<Result<Token, LexError>> {
+        for lexer in self.lexers.iter_mut().rev() {
+            if let Some(token) = lexer.peek() {
+                return Some(token.clone());
+            }
+            if !self.inside_statement {
+                break;
+            }
+        }
+        None
+    }
+}
+
+struct AnnotatedLexer<'a, S: TokenSource> {
+    lexer: &'a mut S,
     raw_token: RawToken,
 }
 impl TryFrom<&mut Peekable<Lexer>> for ParserNode {
     type Error = LexError;
 
+    fn try_from(val: &mut Peekable<Lexer>) -> Result<Self, Self::Error> {
+        ParserNode::parse_statement(val)
+    }
+}
+
+impl ParserNode {
     // TODO enforce that all "missing" values for With<> resolve to the token
     // of the instruction
 
     #[allow(clippy::too_many_lines)]
-    fn try_from(val: &mut Peekable<Lexer>) -> Result<Self, Self::Error> {
+    fn parse_statement<S: TokenSource>(val: &mut S) -> Result<Self, LexError> {
         use LexError::{Expected, IgnoredWithWarning, IsNewline, NeedTwoNodes};
 
         let mut lex = AnnotatedLexer {
@@ -1088,7 +1157,7 @@ impl TryFrom<&mut Peekable<Lexer>> for ParserNode {
                                 #[cfg(riscv_analysis_verif)]
                                 crate::verif::tick("data-list");
                                 // the list ends with the file at the latest
-                                if lex.lexer.peek().is_none() {
+                                if lex.lexer.peek_token().is_none() {
                                     break;
                                 }
                                 let next = lex.peek_any()?;
@@ -1123,7 +1192,7 @@ impl TryFrom<&mut Peekable<Lexer>> for ParserNode {
                                 crate::verif::tick("macro-skip");
                                 // a macro that is never closed ends with
                                 // the file
-                                if lex.lexer.peek().is_none() {
+                                if lex.lexer.peek_token().is_none() {
                                     break;
                                 }
                                 let next = lex.get_any()?;
